@@ -75,6 +75,10 @@ structure Insert where
   cols : List Name
   rows : List (List Cell)
   returning : List Target := []
+  /-- `ON CONFLICT … DO UPDATE SET c = v` (PostgreSQL) / `ON DUPLICATE KEY UPDATE c = v` (MySQL) -/
+  onDup : List (Name × Cell) := []
+  /-- the row source is `SELECT <rows[0]>` instead of `VALUES …` (`rows` then holds that one list) -/
+  fromSelect : Bool := false
 deriving Repr
 
 structure Update where
@@ -83,6 +87,8 @@ structure Update where
   /-- `SET c = v` (unqualified column names) -/
   sets : List (Name × Cell)
   returning : List Target := []
+  /-- PostgreSQL's `SET (c1, c2, …) = (v1, v2, …)`: `sets` pairs each target with its field of the row -/
+  multi : Bool := false
 deriving Repr
 
 structure Select where
@@ -169,6 +175,23 @@ def xfUpdate {σ} (f : Xf σ) (sch : Schema) (u : Update) (st : σ) : Option (Up
   | none => some (u, st)
   | some t => (xfSets f t u.sets st).map fun (sets, st') => ({ u with sets := sets }, st')
 
+/-- the whole of `encryptInsertQuery` (PostgreSQL): the VALUES rows – a row source that is not a VALUES list
+(`GetValuesLists()` is empty for `INSERT … SELECT`) is not looked at, known finding `insert-select-plaintext` –
+and then the assignments of `ON CONFLICT … DO UPDATE SET`, processed like the SET list of an UPDATE (after the
+`fix:` commit; the call was commented out before and the values went to the database in clear). -/
+def xfInsertStmt {σ} (f : Xf σ) (sch : Schema) (i : Insert) (st : σ) : Option (Insert × σ) :=
+  match sch.table i.table with
+  | none => some (i, st)
+  | some t =>
+    (if i.fromSelect then some (i, st) else xfInsert f sch i st).bind fun (i', st') =>
+      (xfSets f t i.onDup st').map fun (od, st'') => ({ i' with onDup := od }, st'')
+
+/-- the whole of `encryptUpdateQuery` (PostgreSQL): the value of a target of the multi-column form
+`SET (a, b) = (x, y)` is a `MultiAssignRef`, not a constant – `GetAConst()` is nil and nothing is
+transformed (known finding `pg-update-multiassign-plaintext`). -/
+def xfUpdateStmt {σ} (f : Xf σ) (sch : Schema) (u : Update) (st : σ) : Option (Update × σ) :=
+  if u.multi then some (u, st) else xfUpdate f sch u st
+
 def updateProtected (sch : Schema) (u : Update) : List (Nat × ColSetting) :=
   match sch.table u.table with
   | none => []
@@ -180,8 +203,8 @@ def updateProtected (sch : Schema) (u : Update) : List (Nat × ColSetting) :=
 forwarded unchanged (the error is only logged) -/
 def xfStmt {σ} (f : Xf σ) (sch : Schema) (s : Stmt) (st : σ) : Stmt × σ :=
   match s with
-  | .insert i => match xfInsert f sch i st with | some (i', st') => (.insert i', st') | none => (s, st)
-  | .update u => match xfUpdate f sch u st with | some (u', st') => (.update u', st') | none => (s, st)
+  | .insert i => match xfInsertStmt f sch i st with | some (i', st') => (.insert i', st') | none => (s, st)
+  | .update u => match xfUpdateStmt f sch u st with | some (u', st') => (.update u', st') | none => (s, st)
   | _ => (s, st)
 
 /-! ### bound parameters (`OnBind`) -/
@@ -237,14 +260,20 @@ def bindPlan (sch : Schema) (s : Stmt) (nvalues : Nat) : BindPlan :=
     | some t =>
       let cols := insertColumns t i
       if cols.isEmpty then .untouched else
-      match insertPlaceholdersRows cols i.rows 0 [] with
+      -- `INSERT … SELECT`: no VALUES lists to walk; then the placeholders assigned in `ON CONFLICT … DO UPDATE SET`
+      -- (after the `fix:` commit), checked against the number of bound values like the SET list of an UPDATE
+      match insertPlaceholdersRows cols (if i.fromSelect then [] else i.rows) 0 [] with
       | none => .error
-      | some m => planOf t m
+      | some m =>
+        match updatePlaceholders nvalues i.onDup m with
+        | none => .error
+        | some m' => planOf t m'
   | .update u =>
     match sch.table u.table with
     | none => .untouched
     | some t =>
-      match updatePlaceholders nvalues u.sets [] with
+      -- `SET (a, b) = ($1, $2)`: the targets' values are `MultiAssignRef`s, `GetParamRef()` is nil
+      match updatePlaceholders nvalues (if u.multi then [] else u.sets) [] with
       | none => .error
       | some m => planOf t m
   | _ => .untouched
